@@ -26,6 +26,15 @@ Oracle clauses (each traced to a phrase of the property statement):
       sends exactly one bundle holding the block's messages in issue order; an
       exit by exception sends nothing; the server address is restored
                                                      -> bind-*
+      A bind() block opened inside an open bind() block (params 'nest': 2):
+      nothing reaches the wire before the OUTER block exits; what the inner
+      block collected becomes, in issue order, part of the outer block when
+      it exits normally and is dropped when it raises.
+  L6  every command of an operation is addressed to the server its object
+      lives on (the (host, port) handed to the OSC interface is captured with
+      every score entry; ids, allocators and the model are kept per server:
+      a second Server object 'c17b' with its own allocators)
+                                                     -> wrong-server:<op>, own-server:<kind>
 Don't-cares: time tags; message-vs-bundle packaging outside bind(); the value
 sent by release(); int-vs-float of numeric values; order of the /b_free
 commands of free_all and of the /b_alloc commands of new_consecutive; a second
@@ -34,7 +43,15 @@ whether a node still exists; sclang sends /n_free again) may emit nothing or
 the same /n_free; any exception from using a freed buffer/bus object (but it
 must not emit anything); use of Buffer objects after Buffer.free_all() and
 partial freeing of a new_consecutive group (documented as unsupported) are not
-in the alphabet.
+in the alphabet.  Also: the number of frames Buffer.cue() asks for (-1 or the
+buffer's size; anything when the client does not know the size); whether
+Buffer.write() appends the header format to a path without extension; whether
+Synth.seti() cuts a list value that does not fit the control; objects of the
+second server are not used while a bind() block of the default server is
+open (whose block they belong to is not decided); bind() blocks whose bundle
+exceeds one UDP datagram, `yield from s.sync()` inside a block and the
+routine-driven Buffer transfers (send_list, load_list, get_to_list,
+load_to_list) are not in the alphabet.
 """
 
 from mc import core
@@ -82,11 +99,18 @@ ARG_TEMPLATES = {
     'cmap': ['m', '$cmap'],
     'lobj': ['l', ['$c', '$b']],
     'dobj': {'bus': '$c', 'buf': '$b'},
+    # values the client coerces (None -> 0, bool -> int), a symbol that is a
+    # plain string, a negative and a zero value, an argument *tuple*
+    'vals': ['a', None, 'b', True, 'c', False, 'd', -1, 0, 0],
+    'targs': ('freq', 440, 'amp', 0.0),
+    'amap': ['in', '$amap'],
+    'empty': [],
 }
 SNEW_ARGS = ['none', 'pair', 'idxf', 'list', 'tuple', 'nest', 'dict', 'dictl',
-             'objs', 'abus', 'node', 'cmap', 'lobj', 'dobj']
+             'objs', 'abus', 'node', 'cmap', 'lobj', 'dobj', 'vals', 'targs',
+             'amap', 'empty']
 SET_ARGS = ['pair', 'idxf', 'list', 'tuple', 'nest', 'objs', 'abus', 'node',
-            'cmap', 'lobj']
+            'cmap', 'lobj', 'vals', 'amap', 'empty']
 SETN_ARGS = {
     'one': ['amp', 0.5],
     'lst': ['freq', [1, 2, 3], 0, [0.5, 0.25]],
@@ -116,7 +140,7 @@ def _needs(t):
         for v in t:
             out |= _needs(v)
     elif isinstance(t, str) and t.startswith('$'):
-        out.add('$c' if t == '$cmap' else t)
+        out.add({'$cmap': '$c', '$amap': '$a'}.get(t, t))
     return out
 
 
@@ -173,8 +197,8 @@ def pre_atoms(args):
                 stack[-1].append({'blob': f'bundle/other {a!r}'})
         elif isinstance(a, (int, float, str)):
             stack[-1].append(a)
-        else:
-            stack[-1].append(f'<{type(a).__name__} {a!r}>')
+        else:       # (no repr: it may contain an address)
+            stack[-1].append(f'<{type(a).__name__}>')
     return out
 
 
@@ -285,19 +309,56 @@ class ClientSys:
             from sc3.base.netaddr import NetAddr
             _G['s2'] = Server('c17b', NetAddr('127.0.0.1', 57111))
         self.s2 = _G['s2']
+        self.s2._addr = _G.setdefault('addr2', self.s2._addr)
+        self.s2.options.control_buses = 64
+        self.s2.options.audio_buses = 64
         self.s2.options.buffers = 32
         self.s2._new_allocators()
         Buffer._server_caches.clear()
+        if 'desc' not in _G:
+            # a description named like the definition the synths use, for
+            # Synth.seti (nothing is sent: no server has booted in NRT);
+            # control layout: freqs = 0..2, amp = 3, gate = 4
+            from sc3.synth.synthdef import SynthDef
+
+            def graph(freqs=(100, 200, 300), amp=0.1, gate=1):
+                pass
+            SynthDef(DEFNAME, graph).add()
+            _G['desc'] = True
+        from sc3.synth import node as _nod
+        _nod.RootNode.roots.clear()     # class-level cache of root nodes
         self.main = main
-        # capture point: everything that enters the NRT score, in issue order
+        # capture point: everything that enters the NRT score, in issue order,
+        # together with the (host, port) it was addressed to (the NRT
+        # interface drops the target before the score; it is noted when the
+        # interface's send_bundle - the single entry of send_msg/send_bundle
+        # of every NetAddr in NRT mode - is entered)
+        osc = main._osc_interface
+        if _G.get('osc') is not osc:
+            _G['osc'] = osc
+            orig_sb = osc.send_bundle
+
+            def send_bundle(target, time, *elements):
+                _G['target'] = target
+                try:
+                    return orig_sb(target, time, *elements)
+                finally:
+                    _G['target'] = None
+            osc.send_bundle = send_bundle
         self.packets = []
+        self.targets = []
         q = main._osc_interface._osc_score._scoreq
         orig = q.add
 
-        def add(prio, entry, _orig=orig, _pk=self.packets):
+        def add(prio, entry, _orig=orig, _pk=self.packets,
+                _tg=self.targets):
             _pk.append(bytes(entry.msg))
+            t = _G.get('target')
+            _tg.append(list(t) if t is not None else None)
             return _orig(prio, entry)
         q.add = add
+        self.srv_target = [list(_G['addr']._target),
+                           list(_G['addr2']._target)]
         self.fams = params.get('fams', ['node', 'buf', 'bus'])
         mx = {'group': 2, 'synth': 2, 'buf': 2, 'bus': 2}
         mx.update(params.get('max', {}))
@@ -306,13 +367,26 @@ class ClientSys:
         self.bufs = []      # {objs, ids, state}
         self.buses = []     # {obj, rate, idx, ch, state}
         self.extra_node_ids = {ROOT, DEFAULT_GROUP}
-        self.cm = None
-        self.pending = []
-        self.peeked = 0
+        # open bind() blocks, outermost first: {cm, pending, peeked}
+        self.blocks = []
+        self.max_nest = params.get('nest', 1)
         self.lc = {}
         self.last = None
         if params.get('bind_open'):
             self.apply(['bind'])
+
+    # innermost open block (the names the rest of the class always used)
+    @property
+    def cm(self):
+        return self.blocks[-1]['cm'] if self.blocks else None
+
+    @property
+    def pending(self):
+        return self.blocks[-1]['pending']
+
+    @property
+    def peeked(self):
+        return self.blocks[-1]['peeked']
 
     # ---- helpers ----------------------------------------------------------
     def _bump(self, key):
@@ -321,54 +395,65 @@ class ClientSys:
     def _live(self, lst):
         return [x for x in lst if x['state'] == 'live']
 
-    def _first(self, ref):
+    def _first(self, ref, srv=0):
+        """first live object of the kind on server `srv` (objects of one
+        server are only ever handed to commands of the same server)"""
         if ref == '$c':
             for b in self.buses:
-                if b['state'] == 'live' and b['rate'] == 'c':
+                if b['state'] == 'live' and b['rate'] == 'c' and \
+                        b.get('srv', 0) == srv:
                     return b
         elif ref == '$a':
             for b in self.buses:
-                if b['state'] == 'live' and b['rate'] == 'a':
+                if b['state'] == 'live' and b['rate'] == 'a' and \
+                        b.get('srv', 0) == srv:
                     return b
         elif ref == '$b':
             for e in self.bufs:
-                if e['state'] == 'live':
+                if e['state'] == 'live' and e.get('srv', 0) == srv:
                     return e
         elif ref == '$n':
-            if self.nodes:
-                return self.nodes[0]
+            for n in self.nodes:
+                if n.get('srv', 0) == srv:
+                    return n
         return None
 
-    def _have(self, tmpl):
-        return all(self._first(r) is not None for r in _needs(tmpl))
+    def _have(self, tmpl, srv=0):
+        return all(self._first(r, srv) is not None for r in _needs(tmpl))
 
-    def _impl(self, t):
+    def _impl(self, t, srv=0):
         """template -> python value for the library"""
         if isinstance(t, dict):
-            return {self._impl(k): self._impl(v) for k, v in t.items()}
+            return {self._impl(k, srv): self._impl(v, srv)
+                    for k, v in t.items()}
         if isinstance(t, list):
-            return [self._impl(v) for v in t]
+            return [self._impl(v, srv) for v in t]
         if isinstance(t, tuple):
-            return tuple(self._impl(v) for v in t)
+            return tuple(self._impl(v, srv) for v in t)
         if isinstance(t, str) and t.startswith('$'):
             if t == '$cmap':
-                return self._first('$c')['obj'].as_map()
-            x = self._first(t)
+                return self._first('$c', srv)['obj'].as_map()
+            if t == '$amap':
+                return self._first('$a', srv)['obj'].as_map()
+            x = self._first(t, srv)
             return x['objs'][0] if t == '$b' else x['obj']
         return t
 
-    def _ref(self, t):
+    def _ref(self, t, srv=0):
         """template -> reference value (objects -> their model ids)"""
         if isinstance(t, dict):
-            return {self._ref(k): self._ref(v) for k, v in t.items()}
+            return {self._ref(k, srv): self._ref(v, srv)
+                    for k, v in t.items()}
         if isinstance(t, list):
-            return [self._ref(v) for v in t]
+            return [self._ref(v, srv) for v in t]
         if isinstance(t, tuple):
-            return tuple(self._ref(v) for v in t)
+            return tuple(self._ref(v, srv) for v in t)
         if isinstance(t, str) and t.startswith('$'):
             if t == '$cmap':
-                return 'c' + str(self._first('$c')['idx'])
-            x = self._first(t)
+                return 'c' + str(self._first('$c', srv)['idx'])
+            if t == '$amap':
+                return 'a' + str(self._first('$a', srv)['idx'])
+            x = self._first(t, srv)
             if t == '$b':
                 return x['ids'][0]
             if t == '$n':
@@ -380,48 +465,69 @@ class ClientSys:
     def _embed(v):
         if isinstance(v, (list, tuple)):
             return [[y for x in v for y in ClientSys._embed(x)]]
+        if v is None:           # documented client coercions of send_msg
+            return [0]
+        if isinstance(v, bool):
+            return [int(v)]
         return [v]
 
-    def _flat(self, t):
+    def _flat(self, t, srv=0):
         """reference flattening of a control argument list (sc3 docs of
         Node.set / Synth args: alternating controls and values, list values
         become [ ] arrays, a dict is its key, value pairs)"""
-        v = self._ref(t)
+        v = self._ref(t, srv)
         if v is None:
             return []
         items = [x for kv in v.items() for x in kv] \
             if isinstance(v, dict) else list(v)
         return [y for x in items for y in self._embed(x)]
 
-    def _tgt(self, t):
+    def _tgt3(self, t):
+        """target spec -> (value handed to the library, its node id, index
+        of the server it lives on)"""
         if t is None:
-            return None, DEFAULT_GROUP
+            return None, DEFAULT_GROUP, 0
         if t == 'srv':
-            return self.s, DEFAULT_GROUP
-        if t[0] == 'id':
-            return t[1], t[1]
+            return self.s, DEFAULT_GROUP, 0
+        if t == 'srv2':
+            return self.s2, DEFAULT_GROUP, 1
+        if t == 'root':         # the root node object of the default server
+            return self._classes().RootNode(self.s), ROOT, 0
+        if t == 'dg':           # the default group *object*
+            return self.s.default_group, DEFAULT_GROUP, 0
+        if t[0] == 'id':        # a bare int: a node id of the default server
+            return t[1], t[1], 0
         n = self.nodes[t[1]]
-        return n['obj'], n['id']
+        return n['obj'], n['id'], n.get('srv', 0)
 
-    def _ids(self):
+    def _tgt(self, t):
+        return self._tgt3(t)[:2]
+
+    def _ids1(self, srv):
         return {
-            'node': {n['id'] for n in self.nodes} | self.extra_node_ids,
+            'node': {n['id'] for n in self.nodes if n.get('srv', 0) == srv}
+            | self.extra_node_ids,
             'buf': {i for e in self.bufs if e['state'] == 'live'
-                    for i in e['ids']},
+                    and e.get('srv', 0) == srv for i in e['ids']},
             'cbus': {i for b in self.buses
                      if b['state'] == 'live' and b['rate'] == 'c'
+                     and b.get('srv', 0) == srv
                      for i in range(b['idx'], b['idx'] + b['ch'])},
             'abus': {i for b in self.buses
                      if b['state'] == 'live' and b['rate'] == 'a'
+                     and b.get('srv', 0) == srv
                      for i in range(b['idx'], b['idx'] + b['ch'])},
         }
+
+    def _ids(self):
+        return [self._ids1(0), self._ids1(1)]
 
     # ---- menu -------------------------------------------------------------
     def ops(self):
         o = []
-        if self.cm is None:
+        if len(self.blocks) < self.max_nest:
             o.append(['bind'])
-        else:
+        if self.blocks:
             o += [['bind_end'], ['bind_raise']]
         if self.p.get('narrow'):
             return o + self._narrow_ops()
@@ -472,7 +578,8 @@ class ClientSys:
             if len(self.bufs) < self.max['buf']:
                 o += [['b_new', 1024, 1, 'none'], ['b_new', 512, 2, 'fn'],
                       ['b_new', 1024, 1, 'none', False],
-                      ['b_consec', 2, True], ['b_consec', 3, True]]
+                      ['b_consec', 2, True], ['b_consec', 3, True],
+                      ['b_alloc_read', 'fn']]
             for e, ent in enumerate(self.bufs):
                 if ent['state'] == 'stale':
                     continue
@@ -492,8 +599,11 @@ class ClientSys:
         return o
 
     def _targets(self):
-        t = [None, 'srv', ['id', 1], ['id', 0]]
-        t += [['n', k] for k in range(len(self.nodes))]
+        t = [None, 'srv', ['id', 1], ['id', 0], 'root', 'dg']
+        if 'node2' in self.fams and not self.blocks:
+            t.append('srv2')
+        t += [['n', k] for k in range(len(self.nodes))
+              if self.nodes[k].get('srv', 0) == 0 or not self.blocks]
         return t
 
     def _node_ops(self):
@@ -502,6 +612,12 @@ class ClientSys:
         ngroups = sum(1 for n in self.nodes if n['kind'] == 'group')
         nsynths = nn - ngroups
         tg = self._targets()
+        # (objects of the second server stay out of an open bind() block of
+        # the default server: whose block their commands belong to is not
+        # decided by the statement)
+        usable = [k for k in range(nn)
+                  if self.nodes[k].get('srv', 0) == 0 or not self.blocks]
+        srv_of = [n.get('srv', 0) for n in self.nodes]
         if ngroups < self.max['group']:
             for cls in ('Group', 'ParGroup'):
                 for t in tg:
@@ -509,71 +625,98 @@ class ClientSys:
                         o.append(['g_new', cls, t, a])
                 for a in ACT_ALT:
                     o.append(['g_new', cls, None, a])
-                for k in range(nn):
+                o.append(['g_new', cls, None, 'addToTail', True])
+                for k in usable:
                     for how in ('after', 'before', 'head', 'tail',
                                 'replace'):
                         o.append(['g_conv', cls, how, ['n', k]])
+                for t in ('srv', ['id', 0], 'root'):
+                    for how in ('head', 'tail'):
+                        o.append(['g_conv', cls, how, t])
         if nsynths < self.max['synth']:
             for t in tg:
                 for a in ACT_MAIN:
                     o.append(['s_new', 'init', t, a, 'pair'])
             for a in ACT_ALT:
                 o.append(['s_new', 'init', None, a, 'pair'])
+            o.append(['s_new', 'init', None, 'addToTail', 'pair', True])
             for name in SNEW_ARGS:
                 if name != 'pair' and self._have(ARG_TEMPLATES[name]):
                     o.append(['s_new', 'init', None, 'addToHead', name])
             for how in ('paused', 'grain'):
-                for t in [None] + [['n', k] for k in range(min(nn, 1))]:
+                for t in tg:
+                    if isinstance(t, list) and t[0] == 'n' and t[1] > 0 \
+                            and srv_of[t[1]] == srv_of[0]:
+                        continue    # one node target per server is enough
                     for a in ACT_MAIN:
                         o.append(['s_new', how, t, a, 'pair'])
-                for name in ('none', 'list', 'dict'):
+                for name in ('none', 'list', 'dict', 'vals'):
                     o.append(['s_new', how, None, 'addToTail', name])
-            for k in range(nn):
+            o.append(['s_new', 'paused', None, 'addToHead', 'pair', True])
+            for k in usable:
                 for how in ('after', 'before', 'head', 'tail'):
                     o.append(['s_conv', how, ['n', k], 'pair'])
                     o.append(['s_conv', how, ['n', k], 'none'])
                 for same in (False, True):
                     for name in ('none', 'list'):
                         o.append(['s_replace', ['n', k], same, name])
-        groups = [k for k in range(nn) if self.nodes[k]['kind'] == 'group']
-        for k in range(nn):
+            for t in ('srv', ['id', 1], 'dg'):
+                for how in ('head', 'tail'):
+                    o.append(['s_conv', how, t, 'pair'])
+        for k in usable:
             n = self.nodes[k]
+            sv = srv_of[k]
             o += [['free', k, True], ['free', k, False],
                   ['run', k, True], ['run', k, False],
-                  ['trace', k], ['query', k]]
+                  ['trace', k], ['query', k], ['query_d', k]]
             for name in SET_ARGS:
-                if self._have(ARG_TEMPLATES[name]):
+                if self._have(ARG_TEMPLATES[name], sv):
                     o.append(['set', k, name])
             for name, t in SETN_ARGS.items():
-                if self._have(t):
+                if self._have(t, sv):
                     o.append(['setn', k, name])
             for name, t in MAP_ARGS.items():
-                if self._have(t):
+                if self._have(t, sv):
                     o += [['map', k, name], ['mapn', k, name]]
             for name, t in MAPA_ARGS.items():
-                if self._have(t):
+                if self._have(t, sv):
                     o += [['mapa', k, name], ['mapan', k, name]]
             for name in FILL_ARGS:
                 o.append(['fill', k, name])
             for t in RELEASE_ARGS:
                 o.append(['release', k, t])
-            for j in range(nn):
-                if j != k:
+            for j in usable:
+                if j != k and srv_of[j] == sv:
                     o += [['mv_before', k, j], ['mv_after', k, j]]
-            for g in [None] + groups:
+            groups = [g for g in usable if self.nodes[g]['kind'] == 'group'
+                      and srv_of[g] == sv]
+            for g in [None] + groups + (['dg', 'root'] if sv == 0 else []):
                 if g != k:
                     o += [['mv_head', k, g], ['mv_tail', k, g]]
             if n['kind'] == 'group':
                 o += [['free_all', k], ['deep_free', k]]
+                for flag in (None, False, True):
+                    o += [['dump_tree', k, flag], ['query_tree', k, flag]]
             else:
                 o += [['s_get', k, 'freq'], ['s_get', k, 2],
-                      ['s_getn', k, 'freq', 3], ['s_getn', k, 0, 2]]
-        o.append(['srv_free_default'])
-        if nn:
+                      ['s_getn', k, 'freq', 3], ['s_getn', k, 0, 2],
+                      ['seti', k, 'one'], ['seti', k, 'two'],
+                      ['seti', k, 'list']]
+        o += [['srv_free_default'], ['srv_free_default', True],
+              ['srv_free_nodes'], ['srv_query_tree', False],
+              ['srv_query_tree', True],
+              ['root', 'free_all'], ['root', 'deep_free'],
+              ['root', 'dump_tree']]
+        for code in (0, 1, 2, 3):
+            o.append(['srv_dump_osc', code])
+        ks = [k for k in range(nn) if srv_of[k] == 0]
+        if ks:
             for a in ('addToHead', 'addAfter', 1, 'b'):
-                o.append(['srv_reorder', list(range(nn)), None, a])
-            o.append(['srv_reorder', list(reversed(range(nn))), ['n', 0],
+                o.append(['srv_reorder', ks, None, a])
+            o.append(['srv_reorder', list(reversed(ks)), ['n', ks[0]],
                       'addToTail'])
+            for t in ('srv', ['id', 1], 'dg'):
+                o.append(['srv_reorder', ks, t, 'addToTail'])
         return o
 
     def _buf_ops(self):
@@ -584,18 +727,24 @@ class ClientSys:
                     o.append(['b_new', frames, ch, compl])
             for n in (2, 3):
                 o += [['b_consec', n, True], ['b_consec', n, False]]
-            o += [['b_read'], ['b_cue'], ['b_new_alloc']]
-            if 'buf2' in self.fams and self.cm is None:
+            o += [['b_consec', 2, True, 'fn'], ['b_consec', 2, False, 'static']]
+            o += [['b_read'], ['b_cue'], ['b_new_alloc'],
+                  ['b_cue', 'fn'], ['b_cue', 'static'], ['b_read_ch']]
+            for compl in ('none', 'fn', 'static'):
+                o += [['b_alloc_read', compl],
+                      ['b_alloc_read', compl, [1]]]
+            if 'buf2' in self.fams and not self.blocks:
                 # (a bind() block belongs to ONE server: commands of the
                 # other server are not part of it - not modelled)
-                o += [['b2_new', 1024, 1], ['b2_consec', 2], ['b2_read']]
+                o += [['b2_new', 1024, 1], ['b2_consec', 2], ['b2_read'],
+                      ['b_cue', 'none', 1]]
             # the only constructor taking the keyword is Buffer(...) itself
             o += [['b_new', 1024, 1, 'none', False],
                   ['b_new', 512, 2, 'fn', False], ['b_new_alloc', False]]
         for e, ent in enumerate(self.bufs):
             if ent['state'] == 'stale':
                 continue
-            if ent.get('srv', 0) == 1 and self.cm is not None:
+            if ent.get('srv', 0) == 1 and self.blocks:
                 continue
             for compl in ('none', 'static', 'fn'):
                 o.append(['b_free', e, compl])
@@ -606,27 +755,49 @@ class ClientSys:
                       ['b_fill', e, m], ['b_query', e, m],
                       ['b_close', e, m], ['b_write', e, m],
                       ['b_sine1', e, m], ['b_get', e, m], ['b_getn', e, m]]
+                o += [['b_read_into', e, m, v]
+                      for v in ('default', 'open', 'channel')]
+                o += [['b_cue_m', e, m, c] for c in ('none', 'fn')]
+                o.append(['b_update_info', e, m])
+                o += [['b_gen', e, m, w]
+                      for w in ('gen', 'normalize', 'wnormalize', 'sine2',
+                                'sine3', 'cheby')]
+                o += [['b_write_v', e, m, v]
+                      for v in ('default', 'fn', 'static')]
+                o += [['b_compl', e, m, meth, c]
+                      for meth in ('zero', 'close') for c in ('fn', 'static')]
                 for e2, ent2 in enumerate(self.bufs):
                     if ent2['state'] == 'live' and ent['state'] == 'live' \
+                            and ent2.get('srv', 0) == ent.get('srv', 0) \
                             and (e2 != e or len(ent['ids']) > 1):
                         m2 = (m + 1) % len(ent2['ids']) if e2 == e else 0
                         o.append(['b_copy', e, m, e2, m2])
-        o.append(['b_free_all'])
+                        o.append(['b_partconv', e, m, e2, m2])
+        o += [['b_free_all'], ['b_free_all', 0, True]]
+        if 'buf2' in self.fams and not self.blocks:
+            o.append(['b_free_all', 1])
         return o
 
     def _bus_ops(self):
         o = []
         if len(self.buses) < self.max['bus']:
             for rate in ('c', 'a'):
-                for ch in (1, 2):
+                for ch in (1, 2, 3):
                     o.append(['bus_new', rate, ch])
+                if 'bus2' in self.fams and not self.blocks:
+                    o += [['bus_new', rate, 1, 1], ['bus_new', rate, 2, 1]]
         for k, b in enumerate(self.buses):
+            if b.get('srv', 0) == 1 and self.blocks:
+                continue
             o.append(['bus_free', k])
             if b['rate'] == 'c':
                 o += [['c_set', k, 1], ['c_set', k, 2], ['c_setn', k],
                       ['c_fill', k], ['c_get', k], ['c_getn', k],
                       ['c_set_at', k], ['c_setn_at', k],
-                      ['c_set_pairs', k], ['c_clear', k]]
+                      ['c_set_pairs', k], ['c_clear', k],
+                      ['c_get_d', k], ['c_getn_d', k]]
+                for meth in ('set', 'fill', 'get', 'new_from'):
+                    o.append(['c_sub', k, meth])
         return o
 
     # ---- one step -----------------------------------------------------------
@@ -642,6 +813,7 @@ class ClientSys:
         if planner is None:
             raise core.HarnessError(f'bad op {op}')
         plan = planner(self, *op[1:])
+        srv = plan.get('srv', 0)
         exc = None
         try:
             res = plan['call']()
@@ -665,21 +837,22 @@ class ClientSys:
         alts = plan.get('alts', [])     # other acceptable emissions
         # what this operation issued
         packets, self.packets[:] = list(self.packets), []
+        targets, self.targets[:] = list(self.targets), []
         wire, werr = self._decode(packets)
         dis += werr
-        if self.cm is not None:
+        bad = [t for t in targets if t != self.srv_target[srv]]
+        if bad:
+            dis.append((f'wrong-server:{KIND_OF.get(name, name)}',
+                        f'every command of the operation is addressed to '
+                        f'the server of its object {self.srv_target[srv]}',
+                        bad, [[a] + atoms(t) for a, t in wire]))
+        in_block = self.cm is not None and srv == 0
+        if in_block:
             if packets:
                 dis.append(('bind-leak', 'nothing on the wire while the '
                             'bind() block is open',
                             [[a] + atoms(t) for a, t in wire], ''))
-            try:
-                got = self.cm.get_bundle()[1:]
-                new = [[m[0]] + pre_atoms(m[1:]) for m in got[self.peeked:]]
-                self.peeked = len(got)
-            except Exception as e:
-                new = None
-                dis.append(('bind-get-bundle', 'list of collected messages',
-                            f'{type(e).__name__}: {e}', ''))
+            new = self._peek(dis)
             issued = new
             where = 'inside bind(), seen through get_bundle()'
         else:
@@ -691,11 +864,24 @@ class ClientSys:
                        for c in cands):
                 dis.append((f'emission:{KIND_OF.get(name, name)}', expected,
                             issued, where))
-        if self.cm is not None and issued is not None:
-            self.pending += issued if not dis else []
+        if in_block and issued is not None:
+            self.blocks[-1]['pending'] += issued if not dis else []
         self.last = [issued, type(exc).__name__ if exc else None]
-        self._post(dis, before, name, wire)
+        self._post(dis, before, name, wire, srv)
         return dis
+
+    def _peek(self, dis, level=-1):
+        """messages the block at `level` collected since the last look"""
+        blk = self.blocks[level]
+        try:
+            got = blk['cm'].get_bundle()[1:]
+            new = [[m[0]] + pre_atoms(m[1:]) for m in got[blk['peeked']:]]
+            blk['peeked'] = len(got)
+            return new
+        except Exception as e:
+            dis.append(('bind-get-bundle', 'list of collected messages',
+                        f'{type(e).__name__}: {e}', ''))
+            return None
 
     def _decode(self, packets):
         """raw score entries -> [(address, typed args)], decode problems"""
@@ -714,10 +900,7 @@ class ClientSys:
                             f'{e}: {raw[4:].hex()}', ''))
         return msgs, err
 
-    def _post(self, dis, before, name, wire=()):
-        """L1 on everything that reached the wire + state invariants"""
-        after = self._ids()
-        ok = {k: before[k] | after[k] for k in before}
+    def _mentions(self, dis, ok, wire, note=''):
         for addr, targs in wire:
             errs, mentions = server_cmds.validate(addr, targs, _decode_blob)
             if errs:
@@ -735,22 +918,33 @@ class ClientSys:
                                 f'ids allocated by the client: '
                                 f'{sorted(ok[role])}',
                                 [addr] + atoms(targs),
-                                f"{m['role']} {m['id']} (+{m['n']})"))
+                                f"{m['role']} {m['id']} (+{m['n']}){note}"))
+
+    def _post(self, dis, before, name, wire=(), srv=0):
+        """L1 on everything that reached the wire + state invariants"""
+        after = self._ids()
+        ok = {k: before[srv][k] | after[srv][k] for k in before[srv]}
+        self._mentions(dis, ok, wire)
         # the real allocators hold exactly the model's live ranges
         s = self.s
+
+        def bufs(k):
+            return [(e['ids'][0], len(e['ids'])) for e in self.bufs
+                    if e['state'] == 'live' and e.get('srv', 0) == k]
+
+        def buses(k, rate):
+            return [(b['idx'], b['ch']) for b in self.buses
+                    if b['state'] == 'live' and b['rate'] == rate
+                    and b.get('srv', 0) == k]
         for kind, alloc, live in (
-                ('buf', s._buffer_allocator,
-                 [(e['ids'][0], len(e['ids'])) for e in self.bufs
-                  if e['state'] == 'live' and e.get('srv', 0) == 0]),
-                ('buf-second-server', self.s2._buffer_allocator,
-                 [(e['ids'][0], len(e['ids'])) for e in self.bufs
-                  if e['state'] == 'live' and e.get('srv', 0) == 1]),
-                ('cbus', s._control_bus_allocator,
-                 [(b['idx'], b['ch']) for b in self.buses
-                  if b['state'] == 'live' and b['rate'] == 'c']),
-                ('abus', s._audio_bus_allocator,
-                 [(b['idx'], b['ch']) for b in self.buses
-                  if b['state'] == 'live' and b['rate'] == 'a'])):
+                ('buf', s._buffer_allocator, bufs(0)),
+                ('buf-second-server', self.s2._buffer_allocator, bufs(1)),
+                ('cbus', s._control_bus_allocator, buses(0, 'c')),
+                ('abus', s._audio_bus_allocator, buses(0, 'a')),
+                ('cbus-second-server', self.s2._control_bus_allocator,
+                 buses(1, 'c')),
+                ('abus-second-server', self.s2._audio_bus_allocator,
+                 buses(1, 'a'))):
             used = sorted((b.address, b.size) for b in alloc.blocks())
             if used != sorted(live):
                 dis.append((f'allocator-state:{kind}', sorted(live), used,
@@ -762,17 +956,17 @@ class ClientSys:
         dis = []
         s = self.s
         if name == 'bind':
-            self.cm = s.bind()
-            self.cm.__enter__()
-            self.pending = []
-            self.peeked = 0
-            self._bump('bind')
+            cm = s.bind()
+            cm.__enter__()
+            self.blocks.append({'cm': cm, 'pending': [], 'peeked': 0})
+            self._bump(('bind', len(self.blocks)))
             self.last = ['bind', None]
             if self.packets:
                 dis.append(('bind-leak', [], len(self.packets), 'on enter'))
             return dis
-        cm, self.cm = self.cm, None
-        self._bump('bind')
+        blk = self.blocks.pop()
+        cm = blk['cm']
+        self._bump(('bind', len(self.blocks) + 1))
         exc = None
         try:
             if name == 'bind_end':
@@ -785,15 +979,49 @@ class ClientSys:
             dis.append((f'op-raises:{name}', 'no exception',
                         f'{type(e).__name__}: {e}', ''))
         packets, self.packets[:] = list(self.packets), []
+        targets, self.targets[:] = list(self.targets), []
         wire, werr = self._decode(packets)
         dis += werr
         obs = [[a] + atoms(t) for a, t in wire]
+        if self.blocks:
+            # an inner block: the enclosing block is still open, so nothing
+            # may reach the wire; what the inner block collected becomes part
+            # of the enclosing block (normal exit) or is dropped (exception)
+            if packets:
+                dis.append(('bind-leak', 'nothing on the wire while the '
+                            'enclosing bind() block is open', obs,
+                            f'at {name} of an inner block'))
+            got = self._peek(dis)
+            exp = blk['pending'] if name == 'bind_end' and exc is None \
+                else []
+            if got is not None and not dis and not same_seq(exp, got):
+                kind = 'bind-raise-sent' if name == 'bind_raise' else \
+                    'bind-exit-order' if same_seq(exp, got, True) else \
+                    'bind-exit-content'
+                dis.append((kind, exp, got, 'messages of the inner block '
+                            'vs what the enclosing block received from it'))
+            if got is not None and not dis:
+                self.blocks[-1]['pending'] += got
+            try:
+                still = s.addr is self.blocks[-1]['cm']
+            except Exception as e:
+                still = f'{type(e).__name__}: {e}'
+            if still is not True:
+                dis.append(('bind-addr-not-restored', True, still,
+                            'server.addr is the enclosing block again'))
+            self.last = [got, name]
+            return dis
+        bad = [t for t in targets if t != self.srv_target[0]]
+        if bad:
+            dis.append(('wrong-server:bind',
+                        f'the bundle is addressed to the bound server '
+                        f'{self.srv_target[0]}', bad, obs))
         if name == 'bind_raise':
             if packets:
                 dis.append(('bind-raise-sent', 'nothing reaches the wire '
                             'when the block raises', obs, ''))
         elif not werr and exc is None:
-            exp = self.pending
+            exp = blk['pending']
             if exp and len(packets) != 1:
                 dis.append(('bind-exit-not-one-bundle',
                             f'1 bundle with {len(exp)} messages',
@@ -814,57 +1042,47 @@ class ClientSys:
         if still is not False:
             dis.append(('bind-addr-not-restored', False, still,
                         'server.addr.has_bundle() after the block'))
-        self.pending = []
         self.last = [obs, name]
         # L1 on the bundle
-        before = self._ids()
-        self._post_wire_only(dis, before, wire)
+        self._post_wire_only(dis, self._ids(), wire)
         return dis
 
     def _post_wire_only(self, dis, ids, wire):
-        tmp = []
         # ids freed inside the block were live when their message was issued:
         # accept every id that was ever allocated in this history
-        ok = {k: set(v) for k, v in ids.items()}
+        ok = {k: set(v) for k, v in ids[0].items()}
         for e in self.bufs:
-            ok['buf'] |= set(e['ids'])
+            if e.get('srv', 0) == 0:
+                ok['buf'] |= set(e['ids'])
         for b in self.buses:
-            r = set(range(b['idx0'], b['idx0'] + b['ch0']))
-            ok['cbus' if b['rate'] == 'c' else 'abus'] |= r
-        for addr, targs in wire:
-            errs, mentions = server_cmds.validate(addr, targs, _decode_blob)
-            if errs:
-                dis.append((f'schema:{addr}', 'conforms to the command '
-                            'reference', errs, [addr] + atoms(targs)))
-            for m in mentions:
-                role = {'newnode': 'node', 'target': 'node',
-                        'group': 'node'}.get(m['role'], m['role'])
-                if m['id'] == -1 and (m['role'] == 'newnode' or
-                                      m['cmd'].startswith('/n_map')):
-                    continue
-                rng = range(m['id'], m['id'] + max(m['n'], 1))
-                if not all(i in ok[role] for i in rng):
-                    dis.append((f'unallocated-id:{role}',
-                                sorted(ok[role]), [addr] + atoms(targs),
-                                f"{m['role']} {m['id']} (+{m['n']}) in the "
-                                f"bind() bundle"))
-        return tmp
+            if b.get('srv', 0) == 0:
+                r = set(range(b['idx0'], b['idx0'] + b['ch0']))
+                ok['cbus' if b['rate'] == 'c' else 'abus'] |= r
+        self._mentions(dis, ok, wire, ' in the bind() bundle')
+        return []
 
     # ---- node operations ------------------------------------------------------
     def _classes(self):
         from sc3.synth import node as nod
         return nod
 
-    def _new_node(self, kind, cls, obj, replaced=None, same_id=False):
+    def _new_node(self, kind, cls, obj, replaced=None, same_id=False,
+                  srv=0):
         nid = getattr(obj, 'node_id', None)
         if not isinstance(nid, int) or isinstance(nid, bool):
             raise _Disagree('own-id:node', 'an int node id', repr(nid))
-        known = {n['id'] for n in self.nodes} | self.extra_node_ids
+        known = {n['id'] for n in self.nodes if n.get('srv', 0) == srv} \
+            | self.extra_node_ids
         if nid in known and not same_id:
             raise _Disagree('id-collision:node',
                             f'an id not in use ({sorted(known)})', nid)
+        osrv = getattr(obj, 'server', None)
+        if osrv is not (self.s2 if srv else self.s):
+            raise _Disagree('own-server:node',
+                            f"the target's server ({'c17b' if srv else 'default'})",
+                            getattr(osrv, 'name', repr(osrv)))
         self.nodes.append({'kind': kind, 'cls': cls, 'obj': obj, 'id': nid,
-                           'state': 'live'})
+                           'state': 'live', 'srv': srv})
         self._bump(('n', len(self.nodes) - 1))
         if replaced is not None and replaced[0] == 'n':
             r = self.nodes[replaced[1]]
@@ -873,24 +1091,27 @@ class ClientSys:
                 self._bump(('n', replaced[1]))
         return nid
 
-    def _op_g_new(self, cls, tgt, act):
+    def _op_g_new(self, cls, tgt, act, reg=False):
         nod = self._classes()
-        targ, tid = self._tgt(tgt)
+        targ, tid, srv = self._tgt3(tgt)
         cmd = '/g_new' if cls == 'Group' else '/p_new'
 
         def call():
+            if reg:     # register=True: watched by the NodeWatcher; the
+                # creation command is the same
+                return getattr(nod, cls)(targ, act, register=True)
             return getattr(nod, cls)(targ, act)
 
         def expect(obj):
             nid = self._new_node('group', cls, obj,
                                  tgt if ACTION[act] == 4 and
-                                 isinstance(tgt, list) else None)
+                                 isinstance(tgt, list) else None, srv=srv)
             return [[cmd, nid, ACTION[act], tid]]
-        return {'call': call, 'expect': expect}
+        return {'call': call, 'expect': expect, 'srv': srv}
 
     def _op_g_conv(self, cls, how, tgt):
         nod = self._classes()
-        targ, tid = self._tgt(tgt)
+        targ, tid, srv = self._tgt3(tgt)
         cmd = '/g_new' if cls == 'Group' else '/p_new'
         act = {'head': 0, 'tail': 1, 'before': 2, 'after': 3,
                'replace': 4}[how]
@@ -900,23 +1121,25 @@ class ClientSys:
 
         def expect(obj):
             nid = self._new_node('group', cls, obj,
-                                 tgt if act == 4 else None)
+                                 tgt if act == 4 and isinstance(tgt, list)
+                                 else None, srv=srv)
             return [[cmd, nid, act, tid]]
-        return {'call': call, 'expect': expect}
+        return {'call': call, 'expect': expect, 'srv': srv}
 
-    def _op_s_new(self, how, tgt, act, argname):
+    def _op_s_new(self, how, tgt, act, argname, reg=False):
         nod = self._classes()
-        targ, tid = self._tgt(tgt)
+        targ, tid, srv = self._tgt3(tgt)
         tmpl = ARG_TEMPLATES[argname]
-        args = self._impl(tmpl)
-        flat = self._flat(tmpl)
+        args = self._impl(tmpl, srv)
+        flat = self._flat(tmpl, srv)
         a = ACTION[act]
+        kw = {'register': True} if reg else {}
 
         def call():
             if how == 'init':
-                return nod.Synth(DEFNAME, args, targ, act)
+                return nod.Synth(DEFNAME, args, targ, act, **kw)
             if how == 'paused':
-                return nod.Synth.new_paused(DEFNAME, args, targ, act)
+                return nod.Synth.new_paused(DEFNAME, args, targ, act, **kw)
             return nod.Synth.grain(DEFNAME, args, targ, act)
 
         def expect(obj):
@@ -927,45 +1150,46 @@ class ClientSys:
                     self.nodes[rep[1]]['state'] = 'replaced'
                     self._bump(('n', rep[1]))
                 return [['/s_new', DEFNAME, -1, a, tid] + flat]
-            nid = self._new_node('synth', 'Synth', obj, rep)
+            nid = self._new_node('synth', 'Synth', obj, rep, srv=srv)
             out = [['/s_new', DEFNAME, nid, a, tid] + flat]
             if how == 'paused':
                 out.append(['/n_run', nid, 0])
             return out
-        return {'call': call, 'expect': expect}
+        return {'call': call, 'expect': expect, 'srv': srv}
 
     def _op_s_conv(self, how, tgt, argname):
         nod = self._classes()
-        targ, tid = self._tgt(tgt)
+        targ, tid, srv = self._tgt3(tgt)
         tmpl = ARG_TEMPLATES[argname]
-        args = self._impl(tmpl)
-        flat = self._flat(tmpl)
+        args = self._impl(tmpl, srv)
+        flat = self._flat(tmpl, srv)
         a = {'head': 0, 'tail': 1, 'before': 2, 'after': 3}[how]
 
         def call():
             return getattr(nod.Synth, how)(targ, DEFNAME, args)
 
         def expect(obj):
-            nid = self._new_node('synth', 'Synth', obj)
+            nid = self._new_node('synth', 'Synth', obj, srv=srv)
             return [['/s_new', DEFNAME, nid, a, tid] + flat]
-        return {'call': call, 'expect': expect}
+        return {'call': call, 'expect': expect, 'srv': srv}
 
     def _op_s_replace(self, tgt, same, argname):
         nod = self._classes()
-        targ, tid = self._tgt(tgt)
+        targ, tid, srv = self._tgt3(tgt)
         tmpl = ARG_TEMPLATES[argname]
-        args = self._impl(tmpl)
-        flat = self._flat(tmpl)
+        args = self._impl(tmpl, srv)
+        flat = self._flat(tmpl, srv)
 
         def call():
             return nod.Synth.replace(targ, DEFNAME, args, same)
 
         def expect(obj):
-            nid = self._new_node('synth', 'Synth', obj, tgt, same_id=same)
+            nid = self._new_node('synth', 'Synth', obj, tgt, same_id=same,
+                                 srv=srv)
             if same and nid != tid:
                 raise _Disagree('own-id:node', tid, nid)
             return [['/s_new', DEFNAME, nid, 4, tid] + flat]
-        return {'call': call, 'expect': expect}
+        return {'call': call, 'expect': expect, 'srv': srv}
 
     def _op_free(self, k, send):
         n = self.nodes[k]
@@ -979,7 +1203,7 @@ class ClientSys:
                 n['state'] = 'freed'
                 self._bump(('n', k))
             return [['/n_free', n['id']]] if send else []
-        plan = {'call': call, 'expect': expect}
+        plan = {'call': call, 'expect': expect, 'srv': n.get('srv', 0)}
         if n['state'] != 'live' and send:
             plan['alts'] = [[]]       # second free of a node: don't-care
         return plan
@@ -987,7 +1211,7 @@ class ClientSys:
     def _simple(self, k, meth, args, expected, **kw):
         n = self.nodes[k]
         plan = {'call': lambda: getattr(n['obj'], meth)(*args),
-                'expect': expected}
+                'expect': expected, 'srv': n.get('srv', 0)}
         plan.update(kw)
         return plan
 
@@ -1003,31 +1227,50 @@ class ClientSys:
         return self._simple(k, 'query', [lambda *a: None],
                             [['/n_query', self.nodes[k]['id']]])
 
+    def _op_query_d(self, k):
+        # default action (prints the reply): same command
+        return self._simple(k, 'query', [],
+                            [['/n_query', self.nodes[k]['id']]])
+
+    def _op_dump_tree(self, k, flag):
+        args = [] if flag is None else [flag]
+        return self._simple(k, 'dump_tree', args,
+                            [['/g_dumpTree', self.nodes[k]['id'],
+                              int(bool(flag))]])
+
+    def _op_query_tree(self, k, flag):
+        args = [] if flag is None else [flag, lambda *a: None]
+        return self._simple(k, 'query_tree', args,
+                            [['/g_queryTree', self.nodes[k]['id'],
+                              int(bool(flag))]])
+
     def _op_set(self, k, argname):
         t = ARG_TEMPLATES[argname]
-        return self._simple(k, 'set', self._impl(t),
+        srv = self.nodes[k].get('srv', 0)
+        return self._simple(k, 'set', self._impl(t, srv),
                             [['/n_set', self.nodes[k]['id']] +
-                             self._flat(t)])
+                             self._flat(t, srv)])
 
     def _op_setn(self, k, argname):
         t = SETN_ARGS[argname]
-        ref = self._ref(t)
+        srv = self.nodes[k].get('srv', 0)
+        ref = self._ref(t, srv)
         exp = ['/n_setn', self.nodes[k]['id']]
         for c, v in zip(ref[0::2], ref[1::2]):
             exp += [c, len(v)] + list(v) if isinstance(v, list) \
                 else [c, 1, v]
-        return self._simple(k, 'setn', self._impl(t), [exp])
+        return self._simple(k, 'setn', self._impl(t, srv), [exp])
 
     def _map(self, k, meth, cmd, tmpl, n_form):
-        ref = self._ref(tmpl)
+        srv = self.nodes[k].get('srv', 0)
         exp = [cmd, self.nodes[k]['id']]
         for c, v in zip(tmpl[0::2], tmpl[1::2]):
             if isinstance(v, str):     # a bus object
-                b = self._first(v)
+                b = self._first(v, srv)
                 exp += [c, b['idx']] + ([b['ch']] if n_form else [])
             else:
                 exp += [c, v] + ([1] if n_form else [])
-        return self._simple(k, meth, self._impl(tmpl), [exp])
+        return self._simple(k, meth, self._impl(tmpl, srv), [exp])
 
     def _op_map(self, k, argname):
         return self._map(k, 'map', '/n_map', MAP_ARGS[argname], False)
@@ -1060,15 +1303,21 @@ class ClientSys:
                             [['/n_after', self.nodes[k]['id'],
                               self.nodes[j]['id']]])
 
+    def _group_arg(self, g):
+        if g is None:
+            return [], DEFAULT_GROUP
+        if g in ('dg', 'root'):     # group *objects* of the default server
+            obj, gid, _ = self._tgt3(g)
+            return [obj], gid
+        return [self.nodes[g]['obj']], self.nodes[g]['id']
+
     def _op_mv_head(self, k, g):
-        gid = DEFAULT_GROUP if g is None else self.nodes[g]['id']
-        arg = [] if g is None else [self.nodes[g]['obj']]
+        arg, gid = self._group_arg(g)
         return self._simple(k, 'move_to_head', arg,
                             [['/g_head', gid, self.nodes[k]['id']]])
 
     def _op_mv_tail(self, k, g):
-        gid = DEFAULT_GROUP if g is None else self.nodes[g]['id']
-        arg = [] if g is None else [self.nodes[g]['obj']]
+        arg, gid = self._group_arg(g)
         return self._simple(k, 'move_to_tail', arg,
                             [['/g_tail', gid, self.nodes[k]['id']]])
 
@@ -1080,6 +1329,20 @@ class ClientSys:
         return self._simple(k, 'deep_free', [],
                             [['/g_deepFree', self.nodes[k]['id']]])
 
+    def _op_seti(self, k, variant):
+        nid = self.nodes[k]['id']
+        if variant == 'one':        # element 1 of the arrayed control
+            return self._simple(k, 'seti', ['freqs', 1, 220],
+                                [['/n_set', nid, 1, 220]])
+        if variant == 'two':
+            return self._simple(k, 'seti', ['amp', 0, 0.5, 'freqs', 2, 7],
+                                [['/n_set', nid, 3, 0.5, 2, 7]])
+        # a list value sets a range; whether the part that does not fit the
+        # control is cut off is not documented
+        return self._simple(k, 'seti', ['freqs', 1, [1, 2, 3]],
+                            [['/n_set', nid, 1, [1, 2]]],
+                            alts=[[['/n_set', nid, 1, [1, 2, 3]]]])
+
     def _op_s_get(self, k, ctl):
         return self._simple(k, 'get', [ctl, lambda *a: None],
                             [['/s_get', self.nodes[k]['id'], ctl]])
@@ -1088,9 +1351,33 @@ class ClientSys:
         return self._simple(k, 'getn', [ctl, n, lambda *a: None],
                             [['/s_getn', self.nodes[k]['id'], ctl, n]])
 
-    def _op_srv_free_default(self):
+    def _op_srv_free_default(self, all_users=False):
+        # (one login: the only default group is the client's own)
+        if all_users:
+            return {'call': lambda: self.s.free_default_group(True),
+                    'expect': [['/g_freeAll', DEFAULT_GROUP]]}
         return {'call': lambda: self.s.free_default_group(),
                 'expect': [['/g_freeAll', DEFAULT_GROUP]]}
+
+    def _op_srv_free_nodes(self):
+        return {'call': lambda: self.s.free_nodes(),
+                'expect': [['/g_freeAll', ROOT], ['/clearSched']]}
+
+    def _op_srv_query_tree(self, flag):
+        return {'call': lambda: self.s.query_tree(flag, lambda *a: None),
+                'expect': [['/g_queryTree', ROOT, int(flag)]]}
+
+    def _op_srv_dump_osc(self, code):
+        return {'call': lambda: self.s.dump_osc(code),
+                'expect': [['/dumpOSC', code]]}
+
+    def _op_root(self, meth):
+        nod = self._classes()
+        exp = {'free_all': ['/g_freeAll', ROOT],
+               'deep_free': ['/g_deepFree', ROOT],
+               'dump_tree': ['/g_dumpTree', ROOT, 0]}[meth]
+        return {'call': lambda: getattr(nod.RootNode(self.s), meth)(),
+                'expect': [exp]}
 
     def _op_srv_reorder(self, ks, tgt, act):
         targ, tid = self._tgt(tgt)
@@ -1170,7 +1457,7 @@ class ClientSys:
             bid = self._new_bufs([obj], srv=1)[0]
             return [['/b_alloc', bid, frames, ch, OPT]]
         return {'call': lambda: Buffer(frames, ch, self.s2),
-                'expect': expect}
+                'expect': expect, 'srv': 1}
 
     def _op_b2_consec(self, n):
         from sc3.synth.buffer import Buffer
@@ -1182,7 +1469,7 @@ class ClientSys:
             ids = self._new_bufs(objs, consecutive=True, srv=1)
             return [['/b_alloc', i, 512, 1, OPT] for i in ids]
         return {'call': lambda: Buffer.new_consecutive(n, 512, 1, self.s2),
-                'expect': expect, 'unordered': True}
+                'expect': expect, 'unordered': True, 'srv': 1}
 
     def _op_b2_read(self):
         from sc3.synth.buffer import Buffer
@@ -1192,22 +1479,35 @@ class ClientSys:
             return [['/b_allocRead', bid, PATH, 0, -1,
                      {'blob': [['/b_query', bid]]}]]
         return {'call': lambda: Buffer.new_read(PATH, server=self.s2),
-                'expect': expect}
+                'expect': expect, 'srv': 1}
 
-    def _op_b_consec(self, n, explicit):
+    def _op_b_consec(self, n, explicit, compl='none'):
         from sc3.synth.buffer import Buffer
+        # documented: a callable completion message gets each Buffer and its
+        # index in the list
+        cm = {'none': None, 'static': list(STATIC_COMPLETION),
+              'fn': lambda buf, i: ['/b_set', buf.bufnum, i, 1.0]}[compl]
+        kw = {} if compl == 'none' else {'completion_msg': cm}
 
         def call():
             if explicit:
-                return Buffer.new_consecutive(n, 512, 1, self.s)
-            return Buffer.new_consecutive(n, 512, 1)
+                return Buffer.new_consecutive(n, 512, 1, self.s, **kw)
+            return Buffer.new_consecutive(n, 512, 1, **kw)
+
+        def tail(k, i):
+            if compl == 'none':
+                return [OPT]
+            if compl == 'static':
+                return [{'blob': [list(STATIC_COMPLETION)]}]
+            return [{'blob': [['/b_set', i, k, 1.0]]}]
 
         def expect(objs):
             if not isinstance(objs, list) or len(objs) != n:
                 raise _Disagree('own-id:buf', f'a list of {n} buffers',
                                 repr(objs))
             ids = self._new_bufs(objs, consecutive=True)
-            return [['/b_alloc', i, 512, 1, OPT] for i in ids]
+            return [['/b_alloc', i, 512, 1] + tail(k, i)
+                    for k, i in enumerate(ids)]
         return {'call': call, 'expect': expect, 'unordered': True}
 
     def _op_b_read(self):
@@ -1219,16 +1519,63 @@ class ClientSys:
                      {'blob': [['/b_query', bid]]}]]
         return {'call': lambda: Buffer.new_read(PATH), 'expect': expect}
 
-    def _op_b_cue(self):
+    def _op_b_cue(self, compl='none', srv=0):
+        from sc3.synth.buffer import Buffer
+
+        def call():
+            if srv:
+                return Buffer.new_cue(PATH, 5, 32768, 2, self.s2)
+            if compl == 'none':
+                return Buffer.new_cue(PATH, 0, 32768, 1)
+            return Buffer.new_cue(PATH, 5, 32768, 2,
+                                  completion_msg=self._compl(compl))
+
+        def expect(obj):
+            bid = self._new_bufs([obj], srv=srv)[0]
+            if compl == 'none' and not srv:
+                return [['/b_alloc', bid, 32768, 1,
+                         {'blob': [['/b_read', bid, PATH, 0, 32768, 0, 1,
+                                    OPT]]}]]
+            return [['/b_alloc', bid, 32768, 2,
+                     {'blob': [['/b_read', bid, PATH, 5, 32768, 0, 1] +
+                               self._compl_exp(compl, bid)]}]]
+        return {'call': call, 'expect': expect, 'srv': srv}
+
+    def _op_b_read_ch(self):
         from sc3.synth.buffer import Buffer
 
         def expect(obj):
             bid = self._new_bufs([obj])[0]
-            return [['/b_alloc', bid, 32768, 1,
-                     {'blob': [['/b_read', bid, PATH, 0, 32768, 0, 1,
-                                OPT]]}]]
-        return {'call': lambda: Buffer.new_cue(PATH, 0, 32768, 1),
+            return [['/b_allocReadChannel', bid, PATH, 0, -1, 0, 1,
+                     {'blob': [['/b_query', bid]]}]]
+        return {'call': lambda: Buffer.new_read_channel(PATH, 0, -1, [0, 1]),
                 'expect': expect}
+
+    def _op_b_alloc_read(self, compl, chans=None):
+        """Buffer(alloc=False) + alloc_read / alloc_read_channel.  The
+        channel list of /b_allocReadChannel is `N * int`, so here an absent
+        completion message must really be absent: a trailing int 0 would be
+        one more channel"""
+        from sc3.synth.buffer import Buffer
+
+        def call():
+            b = Buffer(alloc=False)
+            if chans is None:
+                b.alloc_read(PATH, 3, 100, self._compl(compl))
+            else:
+                b.alloc_read_channel(PATH, 3, 100, list(chans),
+                                     self._compl(compl))
+            return b
+
+        def expect(obj):
+            bid = self._new_bufs([obj])[0]
+            if chans is None:
+                return [['/b_allocRead', bid, PATH, 3, 100] +
+                        self._compl_exp(compl, bid)]
+            tail = [] if compl == 'none' else self._compl_exp(compl, bid)
+            return [['/b_allocReadChannel', bid, PATH, 3, 100] +
+                    list(chans) + tail]
+        return {'call': call, 'expect': expect}
 
     def _free_bufs(self, e, compl, order):
         ent = self.bufs[e]
@@ -1249,7 +1596,7 @@ class ClientSys:
         def on_raise():
             pass
         return {'call': call, 'expect': expect, 'may_raise': not live,
-                'on_raise': on_raise}
+                'on_raise': on_raise, 'srv': ent.get('srv', 0)}
 
     def _op_b_free(self, e, compl):
         return self._free_bufs(e, compl, range(len(self.bufs[e]['ids'])))
@@ -1258,14 +1605,19 @@ class ClientSys:
         return self._free_bufs(
             e, 'none', list(reversed(range(len(self.bufs[e]['ids'])))))
 
-    def _op_b_free_all(self):
+    def _op_b_free_all(self, srv=0, explicit=False):
         from sc3.synth.buffer import Buffer
+
+        def call():
+            if srv:
+                return Buffer.free_all(self.s2)
+            return Buffer.free_all(self.s) if explicit else Buffer.free_all()
 
         def expect(_):
             out = []
             for e, ent in enumerate(self.bufs):
-                if ent.get('srv', 0) != 0:
-                    continue    # free_all() is per server (default server)
+                if ent.get('srv', 0) != srv:
+                    continue    # free_all() is per server
                 if ent['state'] == 'live':
                     out += [['/b_free', i, OPT] for i in ent['ids']]
                     ent['state'] = 'stale'
@@ -1273,16 +1625,16 @@ class ClientSys:
                 elif ent['state'] == 'freed':
                     ent['state'] = 'stale'
             return out
-        return {'call': lambda: Buffer.free_all(), 'expect': expect,
-                'unordered': True}
+        return {'call': call, 'expect': expect, 'unordered': True,
+                'srv': srv}
 
-    def _bufop(self, e, m, meth, args, expected):
+    def _bufop(self, e, m, meth, args, expected, kw=None):
         ent = self.bufs[e]
         live = ent['state'] == 'live'
         b = ent['objs'][m]
-        return {'call': lambda: getattr(b, meth)(*args),
+        return {'call': lambda: getattr(b, meth)(*args, **(kw or {})),
                 'expect': (lambda _: expected) if live else [],
-                'may_raise': not live}
+                'may_raise': not live, 'srv': ent.get('srv', 0)}
 
     def _op_b_zero(self, e, m):
         i = self.bufs[e]['ids'][m]
@@ -1333,6 +1685,107 @@ class ClientSys:
         return self._bufop(e, m, 'getn', [3, 2, lambda *a: None],
                            [['/b_getn', i, 3, 2]])
 
+    def _op_b_read_into(self, e, m, variant):
+        i = self.bufs[e]['ids'][m]
+        q = {'blob': [['/b_query', i]]}
+        if variant == 'default':
+            return self._bufop(e, m, 'read', [PATH],
+                               [['/b_read', i, PATH, 0, -1, 0, 0, q]])
+        if variant == 'open':
+            return self._bufop(e, m, 'read', [PATH, 1, 2, 3, True],
+                               [['/b_read', i, PATH, 1, 2, 3, 1, q]])
+        return self._bufop(e, m, 'read_channel',
+                           [PATH, 1, 2, 3, False, [0, 1]],
+                           [['/b_readChannel', i, PATH, 1, 2, 3, 0, 0, 1,
+                             q]])
+
+    def _op_b_cue_m(self, e, m, compl):
+        # cue(): read from `start_frame` of the file to the start of the
+        # buffer and leave the file open (for DiskIn); how many frames are
+        # asked for (all that fit: -1, or the buffer's size) is not decided
+        ent = self.bufs[e]
+        i = ent['ids'][m]
+        frames = getattr(ent['objs'][m], 'frames', None)
+        if not _num(frames):    # size not known to the client (read buffer)
+            frames = ANY
+        tail = self._compl_exp(compl, i)
+        plan = self._bufop(e, m, 'cue', [PATH, 10, self._compl(compl)],
+                           [['/b_read', i, PATH, 10, frames, 0, 1] + tail])
+        plan['alts'] = [[['/b_read', i, PATH, 10, -1, 0, 1] + tail]]
+        return plan
+
+    def _op_b_update_info(self, e, m):
+        ent = self.bufs[e]
+        i = ent['ids'][m]
+        plan = self._bufop(e, m, 'update_info', [], [['/b_query', i]])
+        if ent['state'] == 'live' and len(ent['ids']) == 1:
+            inner = plan['expect']
+
+            def expect(res):
+                ent['cached'] = True    # documented: (re)enters the cache
+                return inner(res)
+            plan['expect'] = expect
+        return plan
+
+    def _op_b_gen(self, e, m, which):
+        i = self.bufs[e]['ids'][m]
+        # flags: normalize 1 + as_wavetable 2 + clear_first 4
+        if which == 'gen':
+            return self._bufop(e, m, 'gen',
+                               ['sine1', [1.0, 0.5], False, True, False],
+                               [['/b_gen', i, 'sine1', 2, 1.0, 0.5]])
+        if which == 'normalize':
+            return self._bufop(e, m, 'normalize', [0.5],
+                               [['/b_gen', i, 'normalize', 0.5]])
+        if which == 'wnormalize':
+            return self._bufop(e, m, 'normalize', [0.5, True],
+                               [['/b_gen', i, 'wnormalize', 0.5]])
+        if which == 'sine2':
+            return self._bufop(e, m, 'sine2',
+                               [[1, 2], [0.5, 0.25], True, False, True],
+                               [['/b_gen', i, 'sine2', 5, 1, 0.5, 2, 0.25]])
+        if which == 'sine3':
+            return self._bufop(e, m, 'sine3',
+                               [[1, 2], [0.5, 0.25], [0, 1]],
+                               [['/b_gen', i, 'sine3', 7, 1, 0.5, 0,
+                                 2, 0.25, 1]])
+        if which == 'cheby':
+            return self._bufop(e, m, 'cheby',
+                               [[1.0, 0.5], False, False, False],
+                               [['/b_gen', i, 'cheby', 0, 1.0, 0.5]])
+        raise core.HarnessError(which)
+
+    def _op_b_partconv(self, e, m, e2, m2):
+        i = self.bufs[e]['ids'][m]
+        j = self.bufs[e2]['ids'][m2]
+        src = self.bufs[e2]['objs'][m2]
+        return self._bufop(e, m, 'prepare_partconv', [src, 2048],
+                           [['/b_gen', i, 'PreparePartConv', j, 2048]])
+
+    def _op_b_write_v(self, e, m, variant):
+        i = self.bufs[e]['ids'][m]
+        if variant == 'default':
+            # a path without extension: whether the header format is appended
+            # to it is not decided by the reference
+            base = '/tmp/c17out'
+            plan = self._bufop(e, m, 'write', [base],
+                               [['/b_write', i, base + '.aiff', 'aiff',
+                                 'int24', -1, 0, 0, OPT]])
+            plan['alts'] = [[['/b_write', i, base, 'aiff', 'int24', -1, 0,
+                              0, OPT]]]
+            return plan
+        return self._bufop(e, m, 'write',
+                           [PATH, 'wav', 'float', 100, 10, True,
+                            self._compl(variant)],
+                           [['/b_write', i, PATH, 'wav', 'float', 100, 10, 1]
+                            + self._compl_exp(variant, i)])
+
+    def _op_b_compl(self, e, m, meth, compl):
+        i = self.bufs[e]['ids'][m]
+        cmd = {'zero': '/b_zero', 'close': '/b_close'}[meth]
+        return self._bufop(e, m, meth, [self._compl(compl)],
+                           [[cmd, i] + self._compl_exp(compl, i)])
+
     def _op_b_copy(self, e, m, e2, m2):
         i = self.bufs[e]['ids'][m]
         j = self.bufs[e2]['ids'][m2]
@@ -1341,24 +1794,32 @@ class ClientSys:
                            [['/b_gen', j, 'copy', 1, i, 2, -1]])
 
     # ---- buses ----------------------------------------------------------------
-    def _op_bus_new(self, rate, ch):
+    def _op_bus_new(self, rate, ch, srv=0):
         from sc3.synth import bus as busmod
         cls = busmod.ControlBus if rate == 'c' else busmod.AudioBus
+        server = self.s2 if srv else self.s
 
         def expect(obj):
             idx = getattr(obj, 'index', None)
             if not isinstance(idx, int) or isinstance(idx, bool):
                 raise _Disagree('own-id:bus', 'an int bus index', repr(idx))
-            live = self._ids()['cbus' if rate == 'c' else 'abus']
+            live = self._ids1(srv)['cbus' if rate == 'c' else 'abus']
             if live & set(range(idx, idx + ch)):
                 raise _Disagree('id-collision:bus',
                                 f'channels not owned by a live bus '
                                 f'({sorted(live)})', [idx, ch])
+            if getattr(obj, 'server', None) is not server:
+                raise _Disagree('own-server:bus', server.name,
+                                getattr(getattr(obj, 'server', None), 'name',
+                                        None))
             self.buses.append({'obj': obj, 'rate': rate, 'idx': idx,
                                'ch': ch, 'idx0': idx, 'ch0': ch,
-                               'state': 'live'})
+                               'state': 'live', 'srv': srv})
             self._bump(('bus', len(self.buses) - 1))
             return []
+        if srv:
+            return {'call': lambda: cls(ch, server), 'expect': expect,
+                    'srv': srv}
         return {'call': lambda: cls(ch), 'expect': expect}
 
     def _op_bus_free(self, k):
@@ -1371,14 +1832,51 @@ class ClientSys:
                 self._bump(('bus', k))
             return []
         return {'call': lambda: b['obj'].free(), 'expect': expect,
-                'may_raise': not live}
+                'may_raise': not live, 'srv': b.get('srv', 0)}
 
     def _busop(self, k, meth, args, expected):
         b = self.buses[k]
         live = b['state'] == 'live'
         return {'call': lambda: getattr(b['obj'], meth)(*args),
                 'expect': expected if live else [],
-                'may_raise': not live}
+                'may_raise': not live, 'srv': b.get('srv', 0)}
+
+    def _op_c_sub(self, k, meth):
+        """a command through a sub-bus view (sub_bus / new_from) of the last
+        channel: mentions the parent's index + offset"""
+        b = self.buses[k]
+        live = b['state'] == 'live'
+        off = (b['ch'] or 1) - 1
+        idx = (b['idx'] or 0) + off
+
+        def call():
+            from sc3.synth import bus as busmod
+            if meth == 'new_from':
+                sub = busmod.ControlBus.new_from(b['obj'], off, 1)
+                return sub.set(0.75)
+            sub = b['obj'].sub_bus(off, 1)
+            if meth == 'set':
+                return sub.set(0.5)
+            if meth == 'fill':
+                return sub.fill(0.25, 1)
+            return sub.get(lambda *a: None)
+        exp = {'set': ['/c_set', idx, 0.5], 'fill': ['/c_fill', idx, 1, 0.25],
+               'get': ['/c_get', idx],
+               'new_from': ['/c_set', idx, 0.75]}[meth]
+        return {'call': call, 'expect': [exp] if live else [],
+                'may_raise': not live, 'srv': b.get('srv', 0)}
+
+    def _op_c_get_d(self, k):
+        # default action
+        b = self.buses[k]
+        exp = ['/c_get', b['idx']] if b['ch'] == 1 \
+            else ['/c_getn', b['idx'], b['ch']]
+        return self._busop(k, 'get', [], [exp])
+
+    def _op_c_getn_d(self, k):
+        # count=None: all the channels of the bus
+        b = self.buses[k]
+        return self._busop(k, 'getn', [], [['/c_getn', b['idx'], b['ch']]])
 
     def _op_c_set(self, k, n):
         b = self.buses[k]
@@ -1462,8 +1960,8 @@ class ClientSys:
                       for b in self.buses],
             # futures of an open block depend on how many messages it holds
             # and on whose they are, not on their argument lists
-            'bind': None if self.cm is None else [m[:2] for m in
-                                                  self.pending],
+            'bind': None if self.cm is None else
+            [[m[:2] for m in blk['pending']] for blk in self.blocks],
             'next_node': nxt,
             'alloc': [alloc_state(s._buffer_allocator),
                       alloc_state(self.s2._buffer_allocator),
@@ -1542,7 +2040,10 @@ def expand(job):
             'nviol': nviol, 'out': sorted(outcomes)}
 
 
-def run_bfs(ctx, params, depth, batch=8):
+def run_bfs(ctx, params, depth, batch=8, slice_k=1):
+    """BFS to `depth`; with slice_k > 1 the last level expands only the
+    seed-selected 1/slice_k of the frontier (canonical order), i.e. the
+    completed bound is depth - 1 plus a slice of depth"""
     system = 'client'
     label = f'{system}:{core.canon(params)}'
     seen = {'<root>'}
@@ -1554,6 +2055,9 @@ def run_bfs(ctx, params, depth, batch=8):
         if not frontier:
             completed = depth
             break
+        if level == depth and slice_k > 1 and level > 1:
+            ix = core.pick_slice(ctx.seed, slice_k)
+            frontier = frontier[ix::slice_k]
         order = core.shard_order(len(frontier), ctx.seed + level)
         frontier = [frontier[i] for i in order]
         jobs = [{'system': system, 'params': params, 'last': level == depth,
@@ -1610,8 +2114,20 @@ def run_bfs(ctx, params, depth, batch=8):
             ctx.caps.append(f'{label}: time cap hit after depth {level}')
             break
     ctx.states += states
-    ctx.bounds[label] = {'depth_completed': completed, 'states': states,
-                         'levels': per_level}
+    if slice_k > 1 and completed == depth and depth > 1:
+        ctx.bounds[label] = {'depth_completed': depth - 1,
+                             'extra_slice': f'1/{slice_k} of the depth-'
+                             f'{depth} frontier (seed-selected)',
+                             'states': states, 'levels': per_level}
+    else:
+        ctx.bounds[label] = {'depth_completed': completed, 'states': states,
+                             'levels': per_level}
+    import os
+    if os.environ.get('C17_DEBUG'):
+        import sys
+        sys.stderr.write(f'{label} depth {depth}/{slice_k}: ' + ' '.join(
+            f"L{x['depth']}:{x['frontier_in']}>{x['transitions']}"
+            for x in per_level) + '\n')
     return states
 
 
@@ -1627,7 +2143,9 @@ def _buf_states(history):
     """life-cycle of the buffer entities before the last operation"""
     st = []
     for op in history[:-1]:
-        if op[0] in ('b_new', 'b_consec', 'b_read', 'b_cue', 'b_new_alloc'):
+        if op[0] in ('b_new', 'b_consec', 'b_read', 'b_cue', 'b_new_alloc',
+                     'b_read_ch', 'b_alloc_read', 'b2_new', 'b2_consec',
+                     'b2_read'):
             st.append('live')
         elif op[0] in ('b_free', 'b_free_rev') and op[1] < len(st):
             if st[op[1]] == 'live':
@@ -1659,25 +2177,67 @@ def dict_args_with_list_value(v):
     return op[0] in ('s_new', 's_conv', 's_replace') and op[-1] == 'dictl'
 
 
+def _last_buf_state(v):
+    op = _last_op(v)
+    st = _buf_states(v['case']['history'])
+    return st[op[1]] if len(op) > 1 and isinstance(op[1], int) \
+        and op[1] < len(st) else None
+
+
+def cue_on_live_buffer(v):
+    """Buffer.cue(path, start, ...) of a live buffer"""
+    return _last_op(v)[0] == 'b_cue_m' and _last_buf_state(v) == 'live'
+
+
+def alloc_read_channel_without_completion(v):
+    op = _last_op(v)
+    return op[0] == 'b_alloc_read' and op[1] == 'none' and len(op) > 2 \
+        and op[2] is not None
+
+
+def unguarded_method_on_freed_buffer(v):
+    """read / read_channel / cue / update_info after free()"""
+    return _last_op(v)[0] in ('b_read_into', 'b_cue_m', 'b_update_info') \
+        and _last_buf_state(v) == 'freed'
+
+
 PREDICATES = {f.__name__: f for f in (
     second_buffer_free, free_all_with_live_buffers,
-    consecutive_default_server, dict_args_with_list_value)}
+    consecutive_default_server, dict_args_with_list_value,
+    cue_on_live_buffer, alloc_read_channel_without_completion,
+    unguarded_method_on_freed_buffer)}
 
 
 def main(ctx):
     ctx.rule = (
         'E2 BFS over all histories of client-object operations (creation of '
-        'Group/ParGroup/Synth with every add action x target kind, '
-        'set/setn/map/mapn/mapa/mapan/fill/release/run/move/free/... with '
-        'scalar, list, tuple, dict, bus, buffer and node arguments, Buffer '
-        'single (cached and cache=False)/consecutive allocation, use, free, '
-        'free_all, Control/Audio '
-        'bus allocation, use, free, bind()/exit/exit-by-exception) on the '
+        'Group/ParGroup/Synth with every add action x target kind (None, '
+        'Server, second Server, int id 0/1, root node object, default group '
+        'object, node object; plain/paused/grain/replace/convenience '
+        'constructors, register=True), '
+        'set/setn/seti/map/mapn/mapa/mapan/fill/release/run/move/free/'
+        'query/dump_tree/query_tree/... with '
+        'scalar, None/bool/zero/negative, list, tuple, dict, bus, bus map '
+        'symbol, buffer and node arguments, server helpers (free_default_'
+        'group, free_nodes, query_tree, dump_osc, reorder, root node), Buffer '
+        'single (cached and cache=False)/consecutive/read/read_channel/cue/'
+        'alloc_read allocation with none/list/callable completion messages, '
+        'every Buffer command method (zero/set/setn/fill/read/read_channel/'
+        'cue/write/close/query/update_info/get/getn/gen/normalize/sine1-3/'
+        'cheby/copy_data/prepare_partconv), free, free_all (default, explicit '
+        'and second server), Control/Audio '
+        'bus allocation (1-3 channels, both servers), use (also through '
+        'sub_bus/new_from views), free, bind()/exit/exit-by-exception, also '
+        'one bind() nested in another) on the '
         'real objects in NRT mode: wide alphabets (all argument variants) to '
         'depth 3-5 per object family and mixed, plus a narrow life-cycle '
         'alphabet (create/free/replace/bind and a few emitting operations) to '
-        'depth 5-6; after every step the decoded wire is '
-        'compared with the command reference and a set-of-ids model. States '
+        'depth 5-6; in the quick tier the last level of the largest wide '
+        'runs is a seed-selected 1/k slice of the frontier (ctx.bounds says '
+        'which); after every step the decoded wire (with the server address '
+        'each entry was sent to) is '
+        'compared with the command reference and a per-server set-of-ids '
+        'model. States '
         'are deduplicated on model state + allocator contents + pending '
         'bundle. Non-trivial = some object (node, buffer group, bus, bind '
         'block) changed life-cycle state at least twice in the history.')
@@ -1685,38 +2245,50 @@ def main(ctx):
         'mc/oracles/server_cmds.py: argument schemas typed in from the '
         'Server Command Reference',
         'mc/oracles/osc10.py: strict OSC 1.0 decoder of the score datagrams',
-        'the NRT score (every entry captured when it is queued) is the wire; '
+        'the NRT score (every entry captured when it is queued, its target '
+        'noted at OscNrtInterface.send_bundle) is the wire; '
         'the allocator tie-break (builtins.choice) is fixed to lowest-start '
         '(C16 explores it)',
         'the real allocators\' blocks() report the used blocks']
     fam_node = {'fams': ['node'], 'max': {'group': 2, 'synth': 2}}
     fam_buf = {'fams': ['buf'], 'max': {'buf': 2}}
     fam_buf2 = {'fams': ['buf2'], 'max': {'buf': 2}}
-    fam_bus = {'fams': ['bus', 'node'],
+    fam_bus = {'fams': ['bus', 'bus2', 'node'],
                'max': {'bus': 2, 'group': 0, 'synth': 1}}
+    fam_node2 = {'fams': ['node', 'node2'], 'max': {'group': 1, 'synth': 1}}
     mixed = {'fams': ['node', 'buf', 'bus'],
              'max': {'group': 1, 'synth': 1, 'buf': 1, 'bus': 2}}
 
     def opened(p):
         q = dict(p)
+        q['fams'] = [f for f in p['fams'] if f not in ('bus2', 'node2')]
         q['bind_open'] = True
         return q
+
     def narrow(p, mx):
-        return {'fams': p['fams'], 'max': mx, 'narrow': True}
+        return {'fams': [f for f in p['fams'] if f != 'bus2'], 'max': mx,
+                'narrow': True}
     n_node = narrow(fam_node, {'group': 2, 'synth': 2})
     n_buf = narrow(fam_buf, {'buf': 3})
     n_mixed = narrow(mixed, {'group': 1, 'synth': 1, 'buf': 1, 'bus': 1})
+    # bind() inside bind(): narrow alphabet, first block already open
+    nested = {'fams': ['node', 'buf'], 'narrow': True, 'nest': 2,
+              'bind_open': True,
+              'max': {'group': 1, 'synth': 1, 'buf': 1}}
+    # (params, depth, slice of the last level)
     if ctx.tier == 'quick':
-        plan = [(fam_node, 4), (fam_buf, 4), (fam_buf2, 3), (fam_bus, 4),
-                (mixed, 3),
-                (opened(fam_node), 3), (opened(fam_buf), 3),
-                (opened(fam_bus), 3), (opened(mixed), 3),
-                (n_node, 5), (n_buf, 5), (n_mixed, 4)]
+        plan = [(fam_node, 4, 8), (fam_buf, 4, 1), (fam_buf2, 3, 1),
+                (fam_bus, 4, 4), (fam_node2, 3, 1), (mixed, 3, 1),
+                (opened(fam_node), 3, 4), (opened(fam_buf), 3, 1),
+                (opened(fam_bus), 3, 2), (opened(mixed), 3, 8),
+                (n_node, 5, 1), (n_buf, 5, 1), (n_mixed, 4, 1),
+                (nested, 4, 1)]
     else:
-        plan = [(fam_node, 4), (fam_buf, 5), (fam_buf2, 4), (fam_bus, 5),
-                (mixed, 4),
-                (opened(fam_node), 3), (opened(fam_buf), 4),
-                (opened(fam_bus), 4), (opened(mixed), 3),
-                (n_node, 6), (n_buf, 6), (n_mixed, 6)]
-    for params, depth in plan:
-        run_bfs(ctx, params, depth)
+        plan = [(fam_node, 4, 1), (fam_buf, 5, 2), (fam_buf2, 4, 1),
+                (fam_bus, 5, 4), (fam_node2, 4, 1), (mixed, 4, 2),
+                (opened(fam_node), 3, 1), (opened(fam_buf), 4, 2),
+                (opened(fam_bus), 4, 4), (opened(mixed), 3, 1),
+                (n_node, 6, 1), (n_buf, 6, 1), (n_mixed, 6, 1),
+                (nested, 5, 1)]
+    for params, depth, k in plan:
+        run_bfs(ctx, params, depth, slice_k=k)
